@@ -14,7 +14,8 @@ import sys
 import time
 
 ROOT = os.path.dirname(os.path.dirname(os.path.abspath(__file__)))
-SCR = "/tmp/w/confirm"
+SCR = os.environ.get("CONFIRM_SCR", "/tmp/w/confirm")
+PHASE = os.environ.get("CONFIRM_PHASE", "AB")   # A: scratch-worktree part only (parallelisable with distinct CONFIRM_SCR); B: /repo + ./check part
 
 
 def sh(cmd, cwd=None, env=None, timeout=3600):
@@ -39,26 +40,37 @@ def main():
         meta = json.load(open(os.path.join(d, "meta.json")))
         prop = meta.get("property", sid.split("-")[0])[:3]
         res = dict(id=sid, property=prop)
-        sh("git checkout -q --detach $(git -C /repo rev-parse HEAD) && git checkout -- . && git clean -fdq", cwd=wt)
-        env = {"CARGO_TARGET_DIR": tgt}
-        rc0, out0 = sh("bash %s/demo.sh %s" % (d, wt), env=env)
-        res["demo_unpatched_exit"] = rc0
-        rc, out = sh("git apply --whitespace=nowarn %s/patch.diff" % d, cwd=wt)
-        res["patch_applies"] = (rc == 0)
-        if rc != 0:
-            res["apply_error"] = out[-500:]
-        else:
-            rcb, outb = sh("cargo build --offline 2>&1 | tail -3", cwd=wt, env=env)
-            rcc, outc = sh("cargo build --offline 2>&1 | tail -3", cwd=wt,
-                           env={"CARGO_TARGET_DIR": tgt + "-cfg", "RUSTFLAGS": "--cfg ripgrep_verif"})
-            res["builds"] = ("Finished" in outb and "Finished" in outc)
-            rct, outt = sh("cargo test --workspace --no-fail-fast --offline 2>&1 | grep -E '^test result|FAILED|failed' | grep -v ' 0 failed' | head -20",
-                           cwd=wt, env=env)
-            res["suite_failures"] = outt.strip()
-            rc1, out1 = sh("bash %s/demo.sh %s" % (d, wt), env=env)
-            res["demo_patched_exit"] = rc1
-            res["demo_patched_output"] = out1[-600:]
-            sh("git checkout -- . && git clean -fdq", cwd=wt)
+        pa = os.path.join(d, "confirm_A.json")
+        if "A" not in PHASE:
+            res = json.load(open(pa))
+            rc = 0 if res.get("patch_applies") else 1
+        if "A" in PHASE:
+          sh("git checkout -q --detach $(git -C /repo rev-parse HEAD) && git checkout -- . && git clean -fdq", cwd=wt)
+          env = {"CARGO_TARGET_DIR": tgt}
+          rc0, out0 = sh("bash %s/demo.sh %s" % (d, wt), env=env)
+          res["demo_unpatched_exit"] = rc0
+          rc, out = sh("git apply --whitespace=nowarn %s/patch.diff" % d, cwd=wt)
+          res["patch_applies"] = (rc == 0)
+          if rc != 0:
+              res["apply_error"] = out[-500:]
+          if rc == 0:
+              rcb, outb = sh("cargo build --offline 2>&1 | tail -3", cwd=wt, env=env)
+              rcc, outc = sh("cargo build --offline 2>&1 | tail -3", cwd=wt,
+                             env={"CARGO_TARGET_DIR": tgt + "-cfg", "RUSTFLAGS": "--cfg ripgrep_verif"})
+              res["builds"] = ("Finished" in outb and "Finished" in outc)
+              rct, outt = sh("cargo test --workspace --no-fail-fast --offline 2>&1 | grep -E '^test result|FAILED|failed' | grep -v ' 0 failed' | head -20",
+                             cwd=wt, env=env)
+              res["suite_failures"] = outt.strip()
+              rc1, out1 = sh("bash %s/demo.sh %s" % (d, wt), env=env)
+              res["demo_patched_exit"] = rc1
+              res["demo_patched_output"] = out1[-600:]
+              sh("git checkout -- . && git clean -fdq", cwd=wt)
+        if "A" in PHASE:
+            json.dump(res, open(pa, "w"), indent=1)
+        if "B" not in PHASE:
+            print(json.dumps(res, indent=1)); sys.stdout.flush()
+            continue
+        if rc == 0:
             # our check against the patched /repo
             rca, outa = sh("git -C /repo apply --whitespace=nowarn %s/patch.diff" % d)
             if rca == 0:
@@ -95,7 +107,8 @@ def main():
             meta["breaks_property"] = prop
             json.dump(meta, open(os.path.join(out, "meta.json"), "w"), indent=1)
     # restore builds for the unpatched tree
-    sh("./check --setup >/dev/null 2>&1", cwd=ROOT)
+    if "B" in PHASE:
+        sh("./check --setup >/dev/null 2>&1", cwd=ROOT)
 
 
 if __name__ == "__main__":
